@@ -278,6 +278,7 @@ def main(tier, seed, replay=None):
     bodies, meta = classification_cases(rng, 60 if big else 8)
     failed, errors = F.coq_eval("c20", PREAMBLE, bodies, shard=80) if ob.ok else ([], ["coq build broken"])
 
+    empty_diffs = []
     diffs, stats = [], {"cases": 0, "forms": 0, "by_argument": {"data": 0, "shapes": 0, "ontology": 0}, "nonconforming": 0}
     n = 120 if big else 14
     d = tempfile.mkdtemp(prefix="c20_", dir="/var/tmp")
@@ -319,8 +320,47 @@ def main(tier, seed, replay=None):
                     if not ok:
                         diffs.append((c, "%s graph handed over as [%s]: report differs from the one for the Graph object" % (arg, desc), base, got,
                                       src if isinstance(src, str) and len(src) < 3000 else repr(src)[:300]))
+        # ---- the EMPTY graph in every form, for the shapes and for the ontology argument: the data graph carries a shape of its
+        # own which it violates, so "no shapes graph given" (shapes are then taken from the data graph) and "an empty shapes
+        # graph given" are told apart
+        mixed = rdflib.Graph().parse(data="@prefix sh: <http://www.w3.org/ns/shacl#> . @prefix ex: <http://ex.org/> .\n"
+                                          "ex:Own a sh:NodeShape ; sh:targetNode ex:a ; sh:property [ sh:path ex:p ; sh:minCount 1 ] .\nex:a ex:q 1 .\n", format="turtle")
+        onlyshape = rdflib.Graph().parse(data="@prefix sh: <http://www.w3.org/ns/shacl#> . @prefix ex: <http://ex.org/> .\n"
+                                              "ex:T a sh:NodeShape ; sh:targetNode ex:a ; sh:property [ sh:path ex:q ; sh:maxCount 0 ] .\n", format="turtle")
+        ep = os.path.join(d, "empty.ttl")
+        open(ep, "w").write("")
+        cp_ = os.path.join(d, "comment.ttl")
+        open(cp_, "w").write("# nothing here\n@prefix ex: <http://ex.org/> .\n")
+        empties = [("Graph()", lambda: (rdflib.Graph(), None, None)), ("Dataset()", lambda: (rdflib.Dataset(), None, None)),
+                   ("'' with format", lambda: ("", "turtle", None)), ("b'' with format", lambda: (b"", "turtle", None)),
+                   ("comment-only text", lambda: ("# nothing here\n@prefix ex: <http://ex.org/> .\n", "turtle", None)),
+                   ("comment-only bytes", lambda: (b"# nothing here\n@prefix ex: <http://ex.org/> .\n", "turtle", None)),
+                   ("empty file path", lambda: (ep, None, None)), ("comment-only file path", lambda: (cp_, None, None)),
+                   ("open empty file", lambda: (lambda fh: (fh, "turtle", fh.close))(open(ep, "rb"))), ("empty StringIO", lambda: (io.StringIO(""), "turtle", None))]
+        for arg, dataq, shapesq in (("shapes", mixed, None), ("ontology", mixed, onlyshape)):
+            outs = []
+            for desc, make in empties:
+                src, fmt, closer = make()
+                kw = {}
+                if fmt:
+                    kw["shacl_graph_format" if arg == "shapes" else "ont_graph_format"] = fmt
+                try:
+                    got = S.run_validate(dataq, src if arg == "shapes" else shapesq, ont_graph=(src if arg == "ontology" else None), **kw)
+                finally:
+                    if closer:
+                        closer()
+                stats["forms"] += 1
+                stats["empty_graph_forms"] = stats.get("empty_graph_forms", 0) + 1
+                outs.append((desc, got[:2] + (keys_iso(got),) if got[0] == "ok" else got[:2]))
+            ref_desc, ref = outs[0]
+            for desc, o_ in outs[1:]:
+                if o_ != ref:
+                    empty_diffs.append({"what": "the empty graph as %s argument: handed over as [%s] gives %r, as [%s] gives %r" % (arg, ref_desc, ref, desc, o_),
+                                        "data_ttl": dataq.serialize(format="turtle")})
     finally:
         shutil.rmtree(d, ignore_errors=True)
+    for dd_ in empty_diffs[:4]:
+        rep.violation(dd_)
     for c, what, o1, o2, src in diffs[:8]:
         dsc = S.describe_case(c["sg"], c["data"], {}, o1)
         dsc["what"] = what
@@ -346,9 +386,9 @@ def main(tier, seed, replay=None):
     cov.update({
         "evaluations": len(bodies) + stats["forms"] + stats["cases"],
         "distinct_nontrivial": stats["forms"],
-        "rule": "(1) decisions: serialisations of random graphs in turtle/nt/xml/json-ld and perturbed headers (PREFIX/BASE upper case, '# baseURI:' comment, leading blank lines, long prefix lines, blank-node-first N-Triples, empty and blank documents, HTML), path-like and short strings, as str and bytes: observed source kind / sniffed format / extension format = model; "
+        "rule": "(1) decisions: serialisations of random graphs in turtle/nt/xml/json-ld and perturbed headers (PREFIX/BASE upper case, '# baseURI:' comment, leading blank lines, long prefix lines, blank-node-first N-Triples, empty and blank documents, HTML), path-like and short strings, as str and bytes; the empty graph as shapes / ontology argument in ten forms (Graph(), Dataset(), '', b'', comment-only text and bytes, empty and comment-only files, open file, StringIO) against a data graph carrying its own violated shape: observed source kind / sniffed format / extension format = model; "
                 "(2) the property: random shapes/data (canonical literals) + ontology, each of the three graph arguments handed over as str, bytes, path with extension, file: URI, open binary/text file, StringIO/BytesIO, in four formats, with the format stated or omitted where a standard header or extension determines it: same verdict and result keys (blank node labels erased) as with Graph objects",
-        "distribution": dict(stats, serialisations_skipped_because_rdflib_round_trip_is_not_isomorphic=dict(forms_of.skipped), decision_cases=kinds, model_disagreements=len(failed), differences=len(diffs)),
+        "distribution": dict(stats, empty_graph_differences=len(empty_diffs), serialisations_skipped_because_rdflib_round_trip_is_not_isomorphic=dict(forms_of.skipped), decision_cases=kinds, model_disagreements=len(failed), differences=len(diffs)),
         "samples": [{k: (v[:200] if isinstance(v, str) else v) for k, v in meta[0].items()}],
         "exhaustive": False,
     })
